@@ -638,6 +638,48 @@ def r05_8(ctx: Ctx, rep: Report) -> None:
         rep.ok("Wildcard._create_ncwb: bit positions", f"{[w[1] for w in widths]}: all {plen} positions", where=where(f))
 
 
+def _spread_keys(f: Func, e: ast.AST) -> Optional[Set[str]]:
+    """Keys a `**e` can carry when e is `D.get(k, {})`, `D.get(k) or {}` or `D[k]` and every value put into the local D is
+    a dict display / dict(...) with constant keys; None when not known."""
+    d = None
+    if isinstance(e, ast.BoolOp) and isinstance(e.op, ast.Or) and len(e.values) == 2 and isinstance(e.values[1], ast.Dict) and not e.values[1].keys:
+        e = e.values[0]
+    if isinstance(e, ast.Call) and isinstance(e.func, ast.Attribute) and e.func.attr == "get" and isinstance(e.func.value, ast.Name):
+        if len(e.args) == 2 and not (isinstance(e.args[1], ast.Dict) and not e.args[1].keys):
+            return None
+        d = e.func.value.id
+    elif isinstance(e, ast.Subscript) and isinstance(e.value, ast.Name):
+        d = e.value.id
+    if d is None:
+        return None
+    keys: Set[str] = set()
+    found = False
+    for n in own_nodes(f.node):
+        v = None
+        if isinstance(n, ast.Call) and isinstance(n.func, ast.Attribute) and n.func.attr == "setdefault" and src(n.func.value) == d and len(n.args) == 2:
+            v = n.args[1]
+        elif isinstance(n, ast.Assign) and isinstance(n.targets[0], ast.Subscript) and src(n.targets[0].value) == d:
+            v = n.value
+        elif isinstance(n, (ast.Assign, ast.AnnAssign)) and n.value is not None:
+            t = n.targets[0] if isinstance(n, ast.Assign) else n.target
+            if isinstance(t, ast.Name) and t.id == d:
+                if isinstance(n.value, ast.Dict) and not n.value.keys:
+                    continue
+                if isinstance(n.value, ast.Call) and src(n.value.func) == "dict" and not n.value.args and not n.value.keywords:
+                    continue
+                return None
+        if v is None:
+            continue
+        found = True
+        if isinstance(v, ast.Call) and src(v.func) == "dict" and not v.args and all(k.arg for k in v.keywords):
+            keys |= {k.arg for k in v.keywords}
+        elif isinstance(v, ast.Dict) and all(isinstance(k, ast.Constant) for k in v.keys):
+            keys |= {str(k.value) for k in v.keys}
+        else:
+            return None
+    return keys if found else None
+
+
 def _limit_holders(ctx: Ctx) -> Set[str]:
     """Classes whose objects carry the limit: some member of their MRO assigns self.max_ncwb / self._max_ncwb."""
     out: Set[str] = set()
@@ -694,6 +736,9 @@ def r05_6(ctx: Ctx, rep: Report) -> None:
                         full = call_keywords(n, _se(f.node))
                         if len(full) > len(kws):
                             kws, star = full, []
+                    # **D.get(k, {}) / **D[k] where every value stored in the local dict D is a dict display with known keys
+                    # that do not include the limit: the spread cannot carry it
+                    star = [x for x in star if (_spread_keys(f, x) is None or "max_ncwb" in _spread_keys(f, x))]
                     own_settings = [k for k, v in kws.items() if k in ("platform", "version") and src(v) in ("self._platform", "self.platform", "self.version", "self._version")]
                     if not own_settings or star:
                         continue  # not a construction on behalf of this object (or settings travel in a dict: C16/C17 key rules)
